@@ -9,6 +9,7 @@ R18.2  for shared memories the grow path performs no realloc and no store to `da
 R18.3  lock/unlock are balanced on every path; failed grows store nothing (see also C05 R05.3)
 R18.4  one descriptor per shared memory: the emitted InitMemories gives a child instance (NewChild, used by thread-spawn) the
        parent's descriptor itself, never a copy - page counter, size and mutex are shared by all threads
+R18.5  wasmMemoryAllocate records the shared flag exactly as declared and initialises the mutex of every shared memory
 """
 from .. import astdb, pe, emit, oracle, templates, runtime, ctyperules as ct, memrules as mr
 from ..pe import Ptr, unk, is_sym
@@ -140,5 +141,9 @@ def run(chk):
     from . import c06
     c06.check_shared_descriptor(chk, emit.translator_tus(('c.c', 'opcode.c', 'instruction.c'), chk=chk), 'R18.4')
     chk.floor('R18.4', 3)
+    # a memory declared shared is marked shared and gets its mutex, whatever its limits (min == max included): the grow/size
+    # paths lock only when the flag says so (allocator rule shared with C06 R06.7)
+    c06.check_allocators(chk, rule='R18.5', only_shared_clause=True)
+    chk.floor('R18.5', 4)
     chk.floor('R18.1', 5)
     chk.floor('R18.3', 3)
